@@ -24,7 +24,7 @@ IMPORTS = "C18.Model C18.Spec"
 SHARD = 6
 RULE = ("method in {MMDCritic, ProtoDash, ProtoGreedy}; data: uniform dyadic grid / clustered / far-apart sites with "
         "duplicates (0/1 kernel matrix, exact ties), N in 1..14 (ProtoDash <= 12 with <= 7 prototypes, ProtoGreedy <= 8 with <= 5 prototypes: exact inverses), d in 1..3, gamma in "
-        "{None,1/16..1} (sites: 1..4), optional linear projection, batch size in 1..N+1 or None, nb_global_prototypes in 1..N, "
+        "{None,1/16..1} (sites: 1..4), kernel_fn in {default, user RBF (must equal gamma=...), user exp(-|x-y|_1)}, optional linear projection, batch size in 1..N+1 or None, nb_global_prototypes in 1..N, "
         "k in 1..nb_global_prototypes, distance in {None(kernel-induced), euclidean, manhattan, chebyshev}; every case is "
         "also run with a second batch size (implementation vs implementation); distinct = different canonical JSON; "
         "non-trivial = at least two batches, or a remainder batch, and at least two prototypes compared")
@@ -98,6 +98,11 @@ def gen_case(rng, tier):
     gamma = rng.choice([None, None, 0.0625, 0.125, 0.25, 0.5, 1.0])
     if kind == "sites":
         gamma = rng.choice([None, 1.0, 2.0]) if d == 1 else rng.choice([1.0, 2.0, 4.0])
+    # custom kernel_fn (public argument): the default RBF re-implemented by the user (must change nothing), or a
+    # genuinely different kernel exp(-|x-y|_1); the Coq model is fed with that kernel's matrix
+    kernel = None
+    if kind != "sites" and rng.random() < 0.12:
+        kernel = rng.choice(["rbf", "laplace"])
     proj = None
     if kind != "sites" and rng.random() < 0.25:
         d2 = rng.randint(1, 3)
@@ -113,7 +118,7 @@ def gen_case(rng, tier):
     k = rng.randint(1, nproto)
     nq = rng.randint(1, 3)
     Q = [[dy(rng, -2, 2, 8) + (16.0 * rng.randint(-1, 1) if kind == "sites" else 0.0) for _ in range(d)] for _ in range(nq)]
-    return dict(method=method, kind=kind, X=X, gamma=gamma, proj=proj, np=nproto, bs=bs, bs2=bs2, k=k, Q=Q,
+    return dict(method=method, kind=kind, X=X, gamma=gamma, kernel=kernel, proj=proj, np=nproto, bs=bs, bs2=bs2, k=k, Q=Q,
                 labels=[rng.randint(0, 9) for _ in range(n)],
                 distance=rng.choice([None, None, "euclidean", "manhattan", "chebyshev"]))
 
@@ -144,6 +149,7 @@ def distribution(cases):
                 n=core.hist(len(c["X"]) for c in cases), nb_prototypes=core.hist(c["np"] for c in cases),
                 batch_class=core.hist(bclass(c) for c in cases), bs_None=core.hist(c["bs"] is None for c in cases),
                 projection=core.hist(c["proj"] is not None for c in cases),
+                kernel_fn=core.hist(c.get("kernel") for c in cases),
                 distance=core.hist(c["distance"] for c in cases),
                 full_selection_compared=core.hist(g is not None and g["ncmp"] == c["np"] for g, c in zip(guards, cases)),
                 steps_compared=sum(g["ncmp"] for g in guards if g), steps_total=sum(c["np"] for c in cases),
@@ -210,11 +216,31 @@ def projected(case, A):
     return A @ np.asarray(case["proj"], dtype=np.float64)
 
 
+def kernel64(case, diff, gamma32):
+    """documented kernel value from the pairwise differences (float64)"""
+    if case.get("kernel") == "laplace":
+        return np.exp(-np.abs(diff).sum(-1))
+    return np.exp(-gamma32 * (diff ** 2).sum(-1))
+
+
+def kernel_callable(case, gamma32):
+    import tensorflow as tf
+    if case.get("kernel") == "laplace":
+        return lambda a, b: tf.exp(-tf.reduce_sum(tf.abs(a[:, None, :] - b[None, :, :]), axis=-1))
+    g = tf.constant(gamma32, dtype=tf.float32)
+    return lambda a, b: tf.exp(-g * tf.reduce_sum(tf.square(a[:, None, :] - b[None, :, :]), axis=-1))
+
+
+def gamma32_of(case):
+    d = len(case["X"][0]) if case["proj"] is None else len(case["proj"][0])
+    return float(np.float32(case["gamma"] if case["gamma"] is not None else 1.0 / d))
+
+
 def distances64(case, Q, P, gamma32):
     """float64 distance matrix queries x prototypes for the configured distance"""
     diff = Q[:, None, :] - P[None, :, :]
-    if case["distance"] is None:          # sqrt(k(x,x) - 2 k(x,p) + k(p,p)) with the rbf kernel
-        return np.sqrt(np.maximum(2.0 - 2.0 * np.exp(-gamma32 * (diff ** 2).sum(-1)), 0.0))
+    if case["distance"] is None:          # sqrt(k(x,x) - 2 k(x,p) + k(p,p)) with the object's kernel
+        return np.sqrt(np.maximum(2.0 - 2.0 * kernel64(case, diff, gamma32), 0.0))
     if case["distance"] == "euclidean":
         return np.sqrt((diff ** 2).sum(-1))
     if case["distance"] == "manhattan":
@@ -250,7 +276,7 @@ def guards(case, res):
 
 
 # ----------------------------------------------------------------------------- implementation driver
-def build(case, bs):
+def build(case, bs, default_kernel=False):
     import tensorflow as tf
     import xplique.example_based as eb
     cls = getattr(eb, METHODS[case["method"]])
@@ -261,8 +287,12 @@ def build(case, bs):
         kwargs["projection"] = lambda inputs, targets=None: tf.matmul(tf.cast(inputs, tf.float32), W)
     if case["distance"] is not None:
         kwargs["distance"] = case["distance"]
+    gamma = case["gamma"]
+    if case.get("kernel") is not None and not default_kernel:
+        kwargs["kernel_fn"] = kernel_callable(case, gamma32_of(case))
+        gamma = None
     return cls(X, labels_dataset=np.array(case["labels"], dtype=np.int64), nb_global_prototypes=case["np"],
-               nb_local_prototypes=case["k"], batch_size=bs, gamma=case["gamma"],
+               nb_local_prototypes=case["k"], batch_size=bs, gamma=gamma,
                case_returns=["examples", "distances", "labels", "indices"], **kwargs)
 
 
@@ -294,7 +324,7 @@ def run_impl(case):
     # documented kernel: exp(-gamma |x-y|^2), gamma default 1 / nb_features (of the search space)
     gamma32 = float(np.float32(case["gamma"] if case["gamma"] is not None else 1.0 / Xp.shape[1]))
     sq = ((Xp[:, None, :] - Xp[None, :, :]) ** 2).sum(-1)
-    res["kernel_dev"] = float(np.max(np.abs(np.exp(-gamma32 * sq) - Kimpl)))
+    res["kernel_dev"] = float(np.max(np.abs(kernel64(case, Xp[:, None, :] - Xp[None, :, :], gamma32) - Kimpl)))
     # the tables of the search method, when they are exposed
     cm, dg = getattr(sm, "kernel_col_means", None), getattr(sm, "kernel_diag", None)
     res["col_means"] = None if cm is None else np.asarray(cm).astype(float).tolist()
@@ -325,6 +355,12 @@ def run_impl(case):
         res["second"] = dict(bs_eff=int(m2.batch_size), indices=g2["indices"], weights=g2["weights"])
     else:
         res["second"] = None
+    # a user-supplied RBF with the same gamma must give what gamma=... gives (same batch size)
+    if case.get("kernel") == "rbf":
+        g3 = globals_of(build(case, case["bs"], default_kernel=True))
+        res["default_kernel"] = dict(bs_eff=res["bs_eff"], indices=g3["indices"], weights=g3["weights"])
+    else:
+        res["default_kernel"] = None
     return res
 
 
@@ -366,6 +402,11 @@ def coq_term(case, res):
     parts.append(f"check_spec {cmethod(case)} {core.cq(EPS32)} {K} {core.cnat(bs)} {core.cnat(nproto)}")
     if res["second"] is not None:
         s = res["second"]
+        parts.append(f"check_cross {core.cnat(bs)} {core.cnat(s['bs_eff'])} {core.cnat(ncmp)} {cpairs(res['indices'])} "
+                     f"{cpairs(s['indices'])} {core.cbool(g['cmpw'])} {tolw} {core.cqlist(res['weights'])} "
+                     f"{core.cqlist(s['weights'])}")
+    if res.get("default_kernel") is not None:
+        s = res["default_kernel"]
         parts.append(f"check_cross {core.cnat(bs)} {core.cnat(s['bs_eff'])} {core.cnat(ncmp)} {cpairs(res['indices'])} "
                      f"{cpairs(s['indices'])} {core.cbool(g['cmpw'])} {tolw} {core.cqlist(res['weights'])} "
                      f"{core.cqlist(s['weights'])}")
@@ -428,6 +469,10 @@ def shrink(case):
         c = copy.deepcopy(case)
         c["proj"] = None
         yield c
+    if case.get("kernel") is not None:
+        c = copy.deepcopy(case)
+        c["kernel"] = None
+        yield c
     if len(case["Q"]) > 1:
         c = copy.deepcopy(case)
         c["Q"] = c["Q"][:1]
@@ -436,31 +481,3 @@ def shrink(case):
         c = copy.deepcopy(case)
         c["distance"] = None
         yield c
-
-
-# ----------------------------------------------------------------------------- separate probe (not in the main stream)
-def probe_custom_kernel():
-    """known finding on the unchanged tree: a custom `kernel_fn` crashes (nb_features only set in the default-kernel
-    path of ProtoGreedySearch).  Reported in the evidence, never a verdict."""
-    import tensorflow as tf
-    import xplique.example_based as eb
-    X = np.array([[0.0, 0.5], [1.0, -0.5], [0.25, 2.0], [-1.0, 0.0]], dtype=np.float32)
-
-    def kern(a, b):
-        return tf.exp(-0.5 * tf.reduce_sum(tf.square(a[:, None, :] - b[None, :, :]), axis=-1))
-    out = {}
-    for name in METHODS.values():
-        try:
-            m = getattr(eb, name)(X, nb_global_prototypes=2, batch_size=2, kernel_fn=kern)
-            out[name] = dict(ok=True, indices=np.asarray(m.get_global_prototypes()["prototypes_indices"]).tolist())
-        except Exception as e:  # noqa: BLE001
-            out[name] = dict(ok=False, error=f"{type(e).__name__}: {e}"[:300])
-    return out
-
-
-def extra_checks(tier):
-    try:
-        EXTRA_COVERAGE["probe_custom_kernel_fn"] = probe_custom_kernel()
-    except Exception as e:  # noqa: BLE001
-        EXTRA_COVERAGE["probe_custom_kernel_fn"] = dict(error=str(e)[:300])
-    return []
